@@ -114,7 +114,7 @@ pub fn run(ctx: &Ctx) -> Report {
                 profile.max_depth = 6;
                 profile.max_nodes = 40;
             }
-            let opts = HistoryOpts { profile: profile.clone(), len: rng.range(10, if sweep { 14 } else { 40 }) as usize, sweep, matrix: i == 0 && w < 2, api: match i % 5 { 3 => ApiKind::Bech32, 4 => ApiKind::Bech32m, _ => ApiKind::Std } };
+            let opts = HistoryOpts { profile: profile.clone(), len: rng.range(10, if sweep { 14 } else { 40 }) as usize, sweep, matrix: (i == 0 && w < 2) || (prop == "C12" && i % 8 == 0), api: match i % 5 { 3 => ApiKind::Bech32, 4 => ApiKind::Bech32m, _ => ApiKind::Std } };
             let (case, discs) = run_history(&mut rng, &opts, &mut rep, &prop);
             rep.bump("e1/histories");
             if w == 0 && i == 1 {
@@ -186,7 +186,7 @@ pub fn run(ctx: &Ctx) -> Report {
         "C08" => vec!["e1/accessors/writes_through_contract_storage_mut".into(), "e1/accessors/contracts_compared".into(), "e1/accessors/raw_queries_compared".into(), "e1/state/contract_storages_compared".into()],
         "C10" => vec!["e1/purity/queries_issued_twice".into(), "e1/purity/storage_unchanged_checks".into(), "e1/trace/probes_compared".into(), "e1/staking_query_histories".into(), "stk/pending_vs_raw_state_checked".into()],
         "C11" => vec!["e1/registry/store_code/auto".into(), "e1/registry/store_code/chosen".into(), "e1/registry/duplicate_code/valid".into(), "e1/failure/DuplicateAddress/top-level".into(), "e1/failure/EmptyLabel/propagated".into(), "e1/failure/NoSuchCode/propagated".into(), "e1/accessors/code_info_compared".into()],
-        "C12" => vec!["e1/failure/NotAdmin/propagated".into(), "e1/entry/Migrate".into(), "e1/addr/respelled-address-rejected".into(), "e1/failure/NoEntryPoint/top-level".into()],
+        "C12" => vec!["e1/failure/NotAdmin/propagated".into(), "e1/entry/Migrate".into(), "e1/addr/respelled-address-rejected".into(), "e1/failure/NoEntryPoint/top-level".into(), "e1/admin_matrix_histories".into()],
         "C13" => vec!["e1/failure/BadAttribute/propagated".into(), "e1/failure/BadAttribute/caught".into(), "e1/attr_and_event_strings".into()],
         _ => vec![],
     };
